@@ -205,6 +205,10 @@ func (a *Agg) Coverage(rule string) map[string]any {
 			"crash_mid_step":               a.Stats.CrashMidStep.Load(),
 			"side_writer_calls":            a.Stats.SideWrites.Load(),
 			"side_writer_calls_refused":    a.Stats.SideRefused.Load(),
+			"reestablish_msgs_judged":      a.Stats.ReestChecked.Load(),
+			"reestablish_heights_equal":    a.Stats.ReestInSync.Load(),
+			"reestablish_local_ahead":      a.Stats.ReestLocalAhead.Load(),
+			"reestablish_remote_ahead":     a.Stats.ReestRemoteAhead.Load(),
 			"max_durable_writes_per_step":  a.Stats.MaxWrites.Load(),
 			"durable_writes_table":         WritesTable(),
 			"crash_points_discovered_late": WritesTableLate.Load(),
@@ -244,6 +248,9 @@ func Replay(run *evid.Run, path string) error {
 			return fmt.Errorf("step %d (%s): %w", i, a, err)
 		}
 		fmt.Printf("INFO    -> %s\n", w.Key())
+		// per-state read-only probe of the channel_reestablish monitor (no-op
+		// unless Params.ReestMonitor)
+		w.CheckReestHere()
 	}
 	if len(w.Enabled()) == 0 {
 		w.Terminal()
